@@ -84,6 +84,13 @@ def check(ctx):
     from .common import check_interp_options
 
     check_interp_options(ctx, "C15-d", ["bluebonnet.flow.flowproperties"], 5)
+    # C15-e: "scaled pseudopressure is 1 at the initial pressure": the wrapper's scaling factor is interpolated at p_i and
+    # m_i is the scaled column interpolated at p_i (shared with C03-a / C09-c)
+    from .c03 import scaling_factor
+    from .c09 import check_initial_value
+
+    scaling_factor(ctx, "C15-e")
+    check_initial_value(ctx, "C15-e", "C15-e", classes=("FlowProperties",))
     ctx.floor("C15", len(ctx.obligs), 10, "multiphase pseudopressure obligations")
 
 
